@@ -103,8 +103,9 @@ Definition picked_senc (tr : xtraf) : option sencc :=
   | None => last_senc true (xt_sencs tr) None
   end.
 
-(* TrafBox.ParseReadSenc(defaultIVSize, moofStartPos): (len(IVs), len(SubSamples)) of the parsed senc *)
-Definition parse_read_senc_x (tr : xtraf) (defaultIV moofStart : N) : res (N * N) :=
+(* TrafBox.ParseReadSenc(defaultIVSize, moofStartPos): (len(IVs), len(SubSamples)) of the parsed senc and the
+   perSampleIVSize handed to ParseReadBox *)
+Definition parse_read_senc_x (tr : xtraf) (defaultIV moofStart : N) : res (N * N * N) :=
   match picked_senc tr with
   | None => Err                                                    (* no senc box or uuid senc box *)
   | Some senc =>
@@ -121,7 +122,7 @@ Definition parse_read_senc_x (tr : xtraf) (defaultIV moofStart : N) : res (N * N
       if negb (se_unparsed senc) then Err
       else
         match senc_parse (se_flags senc) (se_count senc) (se_raw senc) (iv mod 256) with
-        | Ok (true, nivs, nsub, _, _) => Ok (nivs, nsub)
+        | Ok (true, nivs, nsub, _, _) => Ok (nivs, nsub, iv mod 256)
         | Ok (false, _, _, _, _) => Err
         | Err => Err | Panic => Panic | OutOfFuel => OutOfFuel
         end
@@ -145,7 +146,7 @@ Fixpoint moov_find (m : moovctx) (tid : N) : option (bool * option N) :=
   end.
 
 (* the body of `for _, traf := range moof.Trafs`: Some = ParseReadSenc ran (and succeeded) on this traf *)
-Definition traf_pass_x (moov : option moovctx) (moofStart : N) (tr : xtraf) : res (option (N * N)) :=
+Definition traf_pass_x (moov : option moovctx) (moofStart : N) (tr : xtraf) : res (option (N * N * N)) :=
   let '(has, parsed) := contains_senc tr in
   if has && negb parsed then
     match moov with
@@ -164,7 +165,7 @@ Definition traf_pass_x (moov : option moovctx) (moofStart : N) (tr : xtraf) : re
     end
   else Ok None.
 
-Fixpoint moof_senc_pass_x (moov : option moovctx) (moofStart : N) (trafs : list xtraf) : res (list (option (N * N))) :=
+Fixpoint moof_senc_pass_x (moov : option moovctx) (moofStart : N) (trafs : list xtraf) : res (list (option (N * N * N))) :=
   match trafs with
   | [] => Ok []
   | tr :: rest =>
